@@ -1,14 +1,28 @@
 (* C19 (a): the guard of the replay theorems holds for EVERY configuration check_conf accepts.
-   No hypothesis on the user configuration (association lists with repeated keys, nested
-   dictionaries anywhere, the three special strings: all covered): the invariant comes from
-   update_conf itself (Proofs/JsonP.v) and from the regenerated schemas, none of which accepts
-   a dictionary as the value of a parameter (boolean test [no_dict], per-run obligation). *)
+   One hypothesis on the user configuration: the dictionary given as "input" has each key once
+   ([input_keys_once]; it is a Python dict).  Everything else is covered (association lists with
+   repeated keys elsewhere, nested dictionaries anywhere, the three special strings): the
+   invariant comes from update_conf itself (Proofs/JsonP.v) and from the regenerated schemas,
+   none of which accepts a dictionary as the value of a parameter (boolean test [no_dict],
+   per-run obligation). *)
 From Coq Require Import ZArith List Bool String Lia.
 From Pandora Require Import Model.Json Model.Checker Model.Pipeline Model.SavedCfg
   Proofs.CheckerP Proofs.SavedCfgP Proofs.RewriteP Proofs.IndicatorP Proofs.JsonP.
 Import ListNotations.
 Open Scope string_scope.
 Open Scope list_scope.
+
+(* ------------------------------------------------------------------ the user's input section is a Python dict *)
+
+(* the dictionaries given as values of a section have each key once.  For the input section
+   ({"input": {"left": ..., "right": ...}}) this says "left" and "right" are given at most once:
+   an association list holding "left" twice -- a scalar, then a dictionary -- is no Python dict,
+   and update_conf would merge the second into a fresh dictionary (the scalar took the place of
+   the default), in the user's key order instead of the defaults'. *)
+Definition keys_once (u : dict) : bool :=
+  forallb (fun kv => match snd kv with JDict d => nodup_str (keys d) | _ => true end) u.
+
+Definition input_keys_once (user : dict) : bool := keys_once (section_of "input" user).
 
 (* ------------------------------------------------------------------ schemas that refuse dictionaries *)
 
@@ -256,10 +270,10 @@ Section Input.
   (* THE INPUT PART OF THE GUARD holds whenever check_input_section succeeds on the dictionary
      check_conf gives it ({} or {"input": ...}: at most one key) *)
   Lemma input_shape_holds u c :
-    (List.length u <= 1)%nat ->
+    (List.length u <= 1)%nat -> keys_once u = true ->
     input_check D orc grid_ok images_ok u = Some c -> input_shape (i_default D) c = true.
   Proof.
-    intros Lu H. pose proof (input_check_out D orc grid_ok images_ok u c H) as U.
+    intros Lu KO H. pose proof (input_check_out D orc grid_ok images_ok u c H) as U.
     unfold defs_wf in DW. rewrite !andb_true_iff in DW.
     destruct DW as [[[[[[Sh N1] N2] N3] N4] N5] N6].
     destruct (input_shape_parts _ Sh) as [dl [dr [Ed [Fl Fr]]]].
@@ -290,7 +304,7 @@ Section Input.
         + exists (i_gn_left D), (i_gn_right D). destruct (accepts _ _ _); [auto|discriminate]. }
     clear H. destruct Acc as [bl [br [A [NDl NDr]]]].
     rewrite accepts_dict in A. apply andb_prop in A as [A1 A2].
-    unfold update_conf in U. rewrite merge_val_dict in U.
+    unfold update_conf in U. rewrite merge_val_dict in U. cbn [merge_base] in U.
     destruct (merge_items u (i_default D)) as [c'|] eqn:Mu; [|discriminate]. inversion U; subst c'. clear U.
     rewrite Ed in Mu.
     destruct u as [|[ku vu] [|? ?]]; [| |cbn in Lu; lia].
@@ -304,7 +318,7 @@ Section Input.
         unfold subdict in Si. cbn [lookup] in Si. rewrite String.eqb_refl in Si.
         destruct nv; try discriminate. inversion Si; subst d. clear Si.
         destruct (leafb vu) eqn:Lv; [pose proof (merge_leaf_is_leaf _ _ _ Lv Mv); discriminate|].
-        destruct vu as [| | | | | | | |iu]; try discriminate. rewrite merge_val_dict in Mv.
+        destruct vu as [| | | | | | | |iu]; try discriminate. rewrite merge_val_dict in Mv. cbn [merge_base] in Mv.
         destruct (merge_items iu [("left", JDict dl); ("right", JDict dr)]) as [inp'|] eqn:Mi; [|discriminate].
         inversion Mv; subst inp'. clear Mv.
         cbn [forallb] in A1. unfold entry_holds in A1. cbn [fst snd lookup] in A1. rewrite String.eqb_refl in A1. rewrite andb_true_r in A1.
@@ -329,10 +343,12 @@ Section Input.
         { apply (wfd_leaves_flat lft Wl). exact (accepted_leaves orc _ lft NDl (wfd_nodup lft Wl) Al). }
         assert (Fr' : flat rgt = true).
         { apply (wfd_leaves_flat rgt Wr). exact (accepted_leaves orc _ rgt NDr (wfd_nodup rgt Wr) Ar). }
-        destruct (merge_items_dict_prefix "left" iu _ _ dl lft Mi) as [tl Kl].
+        assert (Niu : nodup_str (keys iu) = true).
+        { unfold keys_once in KO. cbn [forallb snd] in KO. rewrite andb_true_r in KO. exact KO. }
+        destruct (merge_items_dict_prefix "left" iu _ _ dl lft Niu Mi) as [tl Kl].
         { cbn [lookup]. rewrite String.eqb_refl. reflexivity. }
         { cbn [lookup]. rewrite String.eqb_refl. reflexivity. }
-        destruct (merge_items_dict_prefix "right" iu _ _ dr rgt Mi) as [tr Kr].
+        destruct (merge_items_dict_prefix "right" iu _ _ dr rgt Niu Mi) as [tr Kr].
         { cbn [lookup]. change ("right" =? "left") with false. cbv iota. rewrite String.eqb_refl. reflexivity. }
         { cbn [lookup]. change ("right" =? "left") with false. cbv iota. rewrite String.eqb_refl. reflexivity. }
         rewrite Ed. unfold input_shape. rewrite !String.eqb_refl. cbn [andb].
@@ -364,15 +380,16 @@ Section Guard.
 
   (* EVERY ACCEPTED CONFIGURATION SATISFIES THE GUARD of the replay theorems *)
   Theorem replay_guard_holds user cfg :
+    input_keys_once user = true ->
     full_check D orc grid_ok images_ok bands_of classes interp user = Some cfg ->
     replay_guard D orc grid_ok images_ok bands_of classes interp user = true.
   Proof.
-    unfold SavedCfg.full_check, replay_guard.
+    intro KO. unfold input_keys_once in KO. unfold SavedCfg.full_check, replay_guard.
     destruct (input_check D orc grid_ok images_ok (section_of "input" user)) as [cfg_in|] eqn:Ic; [|discriminate].
     destruct (images_of bands_of cfg_in) as [im|]; [|discriminate].
     destruct (pipeline_check classes interp im (section_of "pipeline" user)) as [cfg_p|] eqn:Pc; [|discriminate].
     intros _.
-    rewrite (input_shape_holds D orc grid_ok images_ok DW _ cfg_in (section_of_length "input" user) Ic).
+    rewrite (input_shape_holds D orc grid_ok images_ok DW _ cfg_in (section_of_length "input" user) KO Ic).
     rewrite (pipe_guard_holds classes interp W S im _ cfg_p Pc). reflexivity.
   Qed.
 End Guard.
